@@ -1,6 +1,7 @@
 """C06 — trench programs fire only inside trench footprints and cut the full depth."""
 from __future__ import annotations
 
+import fractions
 import json
 import math
 import os
@@ -187,6 +188,45 @@ def fr(v):
 LEAF_RE = re.compile(r'^trench(\d+)_(wall|floor)$|^trench_bed_(\d+)$')
 
 
+def _num(v):
+    return isinstance(v, list) and len(v) == 2 and all(isinstance(k, int) for k in v)
+
+
+def _jdiff(a, b, tol, key=None):
+    if key != 'decs' and _num(a) and _num(b):
+        return None if abs(fractions.Fraction(*a) - fractions.Fraction(*b)) <= tol else f'{float(fractions.Fraction(*a))} vs {float(fractions.Fraction(*b))}'
+    if isinstance(a, dict) and isinstance(b, dict):
+        if set(a) != set(b):
+            return f'{sorted(a)} vs {sorted(b)}'
+        for k in a:
+            d = _jdiff(a[k], b[k], tol, k)
+            if d:
+                return f'{k}: {d}'
+        return None
+    if isinstance(a, list) and isinstance(b, list) and not (_num(a) or _num(b)) or key == 'decs':
+        if len(a) != len(b):
+            return f'{a} vs {b}'
+        for x, y in zip(a, b):
+            d = _jdiff(x, y, tol)
+            if d:
+                return d
+        return None
+    return None if a == b else f'{a!r} vs {b!r}'
+
+
+def instr_diff(impl, model, tol):
+    """None when the two instruction lists (comments and blank lines already dropped) agree: same instructions in the same order,
+    same names / paths / counts / printed decimals, numbers within tol."""
+    tol = fractions.Fraction(tol)
+    for i, (x, y) in enumerate(zip(impl, model)):
+        d = _jdiff(x, y, tol)
+        if d:
+            return f'instruction {i}: impl {json.dumps(x)[:160]} vs model {json.dumps(y)[:160]} ({d})'
+    if len(impl) != len(model):
+        return f'{len(impl)} instructions vs {len(model)} in the model; first extra: {json.dumps((impl + model)[min(len(impl), len(model))])[:160]}'
+    return None
+
+
 def check_case(ctx, case):
     import numpy as np
     from shapely import geometry
@@ -230,6 +270,7 @@ def check_case(ctx, case):
                 p = pathlib.Path(r) / f
                 files.append([str(p.relative_to(root)), p.read_text()])
         neff = float(W.neff)
+        mcfg = gcommon.model_cfg(W)
     blocks = [[t.block for t in tc] for tc in cols]
     beds = [[t.block for t in getattr(tc, 'trenchbed', [])] for tc in cols]
     reqs = [{'op': 'ctl.tree', 'files': files, 'main': 'MAIN.pgm', 'fuel': 4}]
@@ -240,10 +281,37 @@ def check_case(ctx, case):
     for p in eff:
         reqs.append({'op': 'c06.depth', 'h': q(p['h_box']), 'zoff': q(p['z_off']), 'dz': q(p['deltaz']), 'nboxz': p['nboxz']})
 
+    # ---- the compile-side model of the call file of every plain column (Model/TrenchProg.lean, farcallFile) against the real file
+    far = []
+    if not case['utrench']:
+        texts = {n: t for n, t in files}
+        for ci, tc in enumerate(cols):
+            name = f'FARCALL{ci + 1:03}.pgm'
+            if name not in texts:
+                continue
+            trs = list(tc)
+            colj = {'index': ci, 'nboxz': int(tc.nboxz), 'n_repeat': int(tc.n_repeat), 'base_folder': str(tc.base_folder),
+                    'inits': [[q(float(t.xborder[0])), q(float(t.yborder[0]))] for t in trs],
+                    'h_box': q(float(tc.h_box)), 'z_off': q(float(tc.z_off)), 'deltaz': q(float(tc.deltaz)),
+                    'speed_closed': q(float(tc.speed_closed)),
+                    'u': [q(float(tc.u[0])), q(float(tc.u[-1]))] if tc.u else None}
+            far.append((ci, name, len(reqs)))
+            reqs.append({'op': 'ctl.run', 'text': texts[name], 'instrs': True})
+            reqs.append({'op': 'c06.farcall', 'cfg': mcfg, 'col': colj})
+
     def judge(res):
         for m in res:
             if 'driver_error' in m:
                 raise core.InfraError(m['driver_error'])
+        for ci, name, off in far:
+            impl_f, model_f = res[off], res[off + 1]
+            ctx.count('farcall.model', 'error' if model_f['err'] else 'compared')
+            if model_f['err']:
+                continue
+            scale = 4.0 + abs(float(cfg['shift_origin'][0])) + abs(float(cfg['shift_origin'][1]))
+            d = instr_diff(impl_f.get('instrs') or [], model_f['instrs'], scale * 2.0 ** -20 + 2e-6)
+            if d:
+                ctx.fail('corr', 'farcall', {**info, 'file': name, 'col': ci}, f'{name}: the call file differs from the compile-side model: {d}', 'farcall:model')
         T = res[0]
         leaf_runs = dict(zip([n for n, _ in leaf_files], res[1:1 + len(leaf_files)]))
         depth = res[1 + len(leaf_files):]
